@@ -181,6 +181,9 @@ func (x *xtr) composite(t *ast.CompositeLit) xval {
 	switch ty.k {
 	case kStruct:
 		st := x.structs[ty.name]
+		if len(st.caps) > 0 {
+			x.bad(t, "literal of %s, whose slice capacity is modelled (structSpec.Caps)", st.name)
+		}
 		given := map[string]string{}
 		for _, el := range t.Elts {
 			kv, ok := el.(*ast.KeyValueExpr)
@@ -305,6 +308,15 @@ func (x *xtr) binary(t *ast.BinaryExpr) xval {
 		}
 	case token.LSS, token.LEQ, token.GTR, token.GEQ:
 		switch ty.k {
+		case kOrd:
+			// float32 as an abstract ordered type: `a > b` is `b < a` also for IEEE values (NaN: both false);
+			// <= and >= are not (they are not the negations of > and <), so they are rejected
+			switch t.Op {
+			case token.LSS:
+				return xval{s: fmt.Sprintf("decide (%s < %s)", as, bs), ty: tBoolx}
+			case token.GTR:
+				return xval{s: fmt.Sprintf("decide (%s < %s)", bs, as), ty: tBoolx}
+			}
 		case kInt:
 			op := map[token.Token]string{token.LSS: "<", token.LEQ: "≤", token.GTR: ">", token.GEQ: "≥"}[t.Op]
 			return xval{s: fmt.Sprintf("decide (%s %s %s)", as, op, bs), ty: tBoolx}
@@ -432,6 +444,34 @@ func (x *xtr) call(c *ast.CallExpr) xval {
 			}
 		}
 	}
+	if se, ok := c.Fun.(*ast.SelectorExpr); ok {
+		if id, ok := se.X.(*ast.Ident); ok {
+			if sty, ok := x.env[id.Name]; ok && sty.k == kStruct {
+				// a call of a function-typed field of a struct value
+				if ft := x.structs[sty.name].field(se.Sel.Name); ft != nil && ft.k == kFunc && !ft.oracle {
+					if len(ft.results) != 1 || ft.results[0].k == kErr {
+						x.bad(c, "call of the field %s.%s with %d results or an error result", id.Name, se.Sel.Name, len(ft.results))
+					}
+					return xval{s: x.applyFn(c, paren(ident(id.Name))+"."+ident(se.Sel.Name), ft), ty: ft.results[0]}
+				}
+			}
+		}
+		// a method of an opaque value that does not change it: `v.M(..)` or `v.f.M(..)`
+		if rt := x.opaqueRecv(se.X); rt != nil {
+			rv := x.expr(se.X)
+			m, ok := x.methods[rt.name+"."+se.Sel.Name]
+			if !ok {
+				x.bad(c, "method %s of the opaque type %s (spec.Methods)", se.Sel.Name, rt.name)
+			}
+			if m.mut {
+				x.bad(c, "the mutating method %s.%s may only be the whole condition of an `if` on a struct field", rt.name, se.Sel.Name)
+			}
+			if len(m.ft.results) != 1 {
+				x.bad(c, "method %s with %d results inside an expression", se.Sel.Name, len(m.ft.results))
+			}
+			return xval{s: x.applyFn(c, m.lean+" "+paren(rv.s), m.ft), ty: m.ft.results[0]}
+		}
+	}
 	if u, ok := x.uses[name]; ok {
 		te, err := parser.ParseExpr(u.Sig)
 		if err != nil {
@@ -463,6 +503,15 @@ func (x *xtr) call(c *ast.CallExpr) xval {
 			x.bad(c, "strings.Split with a separator that is not a non-empty literal")
 		}
 		return xval{s: fmt.Sprintf("Go.strSplit %s %s", paren(x.co(c.Args[0], x.expr(c.Args[0]), tStr)), x.expr(sep).s), ty: listOf(tStr)}
+	case "cap":
+		// the capacity of a struct's slice field, kept in the ghost field <f>_cap (structSpec.Caps)
+		need(1)
+		if se, ok := c.Args[0].(*ast.SelectorExpr); ok {
+			if b := x.expr(se.X); b.ty.k == kStruct && x.structs[b.ty.name].caps[se.Sel.Name] {
+				return xval{s: paren(b.s) + "." + ident(se.Sel.Name+"_cap"), ty: tInt}
+			}
+		}
+		x.bad(c, "cap of something that is not a struct field listed in structSpec.Caps")
 	case "len":
 		need(1)
 		a := x.expr(c.Args[0])
@@ -558,6 +607,31 @@ func (x *xtr) call(c *ast.CallExpr) xval {
 	return xval{}
 }
 
+// the opaque type of `v` / `v.f` / `v[i].f` …, nil if the expression is not a variable path of opaque type
+func (x *xtr) opaqueRecv(e ast.Expr) *xty {
+	if len(x.opaque) == 0 {
+		return nil
+	}
+	base := lvalueBase(e)
+	if base == "" || x.env[base] == nil {
+		return nil
+	}
+	if id, ok := e.(*ast.Ident); ok {
+		if ty := x.env[id.Name]; ty.k == kOpaque {
+			return ty
+		}
+		return nil
+	}
+	if se, ok := e.(*ast.SelectorExpr); ok {
+		if b := x.expr(se.X); b.ty.k == kStruct {
+			if ft := x.structs[b.ty.name].field(se.Sel.Name); ft != nil && ft.k == kOpaque {
+				return ft
+			}
+		}
+	}
+	return nil
+}
+
 func (x *xtr) applyFn(c *ast.CallExpr, fn string, ft *xty) string {
 	if len(c.Args) != len(ft.params) {
 		x.bad(c, "call arity")
@@ -566,7 +640,7 @@ func (x *xtr) applyFn(c *ast.CallExpr, fn string, ft *xty) string {
 	for i, a := range c.Args {
 		parts = append(parts, paren(x.co(a, x.expr(a), ft.params[i])))
 	}
-	if len(c.Args) == 0 {
+	if len(c.Args) == 0 && !strings.Contains(fn, " ") { // (a method prim is already applied to its receiver)
 		parts = append(parts, "()")
 	}
 	return strings.Join(parts, " ")
